@@ -241,6 +241,11 @@ class EndsWith(Matcher):
         return None
 
 
+def _type_name(a_type):
+    # (Not everything isinstance() accepts has a __name__: int | str has not.)
+    return getattr(a_type, "__name__", None) or repr(a_type)
+
+
 class IsInstance:
     """Matcher that wraps isinstance."""
 
@@ -249,7 +254,7 @@ class IsInstance:
 
     def __str__(self):
         return "{}({})".format(
-            self.__class__.__name__, ", ".join(type.__name__ for type in self.types)
+            self.__class__.__name__, ", ".join(_type_name(type) for type in self.types)
         )
 
     def match(self, other):
@@ -270,9 +275,9 @@ class NotAnInstance(Mismatch):
 
     def describe(self):
         if len(self.types) == 1:
-            typestr = self.types[0].__name__
+            typestr = _type_name(self.types[0])
         else:
-            typestr = "any of (%s)" % ", ".join(type.__name__ for type in self.types)
+            typestr = "any of (%s)" % ", ".join(_type_name(type) for type in self.types)
         return f"'{self.matchee}' is not an instance of {typestr}"
 
 
